@@ -60,6 +60,8 @@ EDITS = {
         ("vs01", "crates/lib/mimium-lang/src/runtime/vm.rs", "        state_storage.resize(fnproto.state_skeleton.total_size() as usize);", "        state_storage.resize(fnproto.state_skeleton.total_size() as usize / 2);", "verus", "vm_storage"),
         ("vs02", "crates/lib/mimium-lang/src/runtime/vm.rs", "            self.global_states\n                .resize(func.state_skeleton.total_size() as usize);", "            if self.global_states.rawdata.is_empty() { self.global_states\n                .resize(func.state_skeleton.total_size() as usize); }", "verus", "vm_storage"),
         ("vs03", "crates/lib/mimium-lang/src/runtime/vm.rs", "        self.pos = (self.pos as u64 - (std::convert::Into::<u64>::into(offset))) as usize;", "        self.pos = (self.pos as u64).saturating_sub(std::convert::Into::<u64>::into(offset) + 1) as usize;", "verus", "vm_storage"),
+        ("vs06", "crates/lib/mimium-lang/src/runtime/vm.rs", "            if self.global_states.rawdata.len() < main_size {\n                self.global_states.resize(main_size);\n            }\n", "            if self.global_states.rawdata.is_empty() {\n                self.global_states.resize(main_size.min(1));\n            }\n", "verus", "vm_storage"),
+        ("vs07", "crates/lib/mimium-lang/src/runtime/vm.rs", "            if self.global_states.rawdata.len() < main_size {\n                self.global_states.resize(main_size);\n            }\n", "            self.global_states.resize(main_size);\n", "verus", "vm_storage"),
         ("vs04", "crates/lib/mimium-lang/src/compiler/wasmgen.rs", "            self.mir.functions[mir_fn_idx].state_skeleton.total_size()", "            self.mir.functions[mir_fn_idx].state_skeleton.total_size().max(1)", "verus", "backend_state"),
         ("vs05", "crates/lib/mimium-lang/src/compiler/wasmgen.rs", "        func.instruction(&W::I64Const(state_size as i64));\n        func.instruction(&W::Call(self.rt.closure_state_push));", "        func.instruction(&W::I64Const(64));\n        func.instruction(&W::Call(self.rt.closure_state_push));", "verus", "backend_state"),
         ("cs01", "crates/lib/mimium-lang/src/runtime/wasm.rs", "        cls_state.pos = 0;\n    }\n    state.state_stack.pop();", "        cls_state.pos = 0;\n    }", "verus", "wasm_state"),
